@@ -297,7 +297,7 @@ func layoutWorld(src *choice.Src, w *World, cfg *gen.Cfg, o WOpts, post []postMu
 		w.Patterns = append(w.Patterns, "adir.yaml")
 		w.Class = "env:input-is-dir"
 	case 3: // syntactically invalid glob
-		w.Patterns = append(w.Patterns, "conf/[a-")
+		w.Patterns = append(w.Patterns, choice.Pick(src, "badglob", []string{"conf/[a-", "conf\\", "\\", "conf/app.yaml\\", "a[", "conf/[]", "conf/[a-]x", "[\\"}))
 		w.Class = "env:bad-glob"
 	case 4: // the same file matched by two patterns (same spelling)
 		w.Patterns = append(w.Patterns, first)
